@@ -76,6 +76,9 @@ type Interp struct {
 	pr         *PathRun
 	tt         *TermTable
 	epoch      int32
+	goLeak     bool       // check at harness end that no channel holds more than its buffer
+	chans      []*ChanObj // channels made on this path
+	cow        map[*Cell]Value // path-local overlay over frozen heap cells
 	steps      int
 	stepBudget int
 	entered    map[*ssa.Function]bool
@@ -176,6 +179,13 @@ func (it *Interp) runHarness(name string) (out outcome) {
 		}
 	}()
 	it.callFunction(fn, nil, nil, nil)
+	if it.goLeak {
+		for _, c := range it.chans {
+			if len(c.q) > c.cap {
+				return it.violation("leak", "goroutine-left-blocked", fmt.Sprintf("a channel with buffer %d is left holding %d unreceived values: its sender blocks forever", c.cap, len(c.q)), nil)
+			}
+		}
+	}
 	return outcome{kind: "ok"}
 }
 
